@@ -57,10 +57,14 @@ pub struct Profile {
     pub recv_heavy: bool,
     /// control-plane ops (gen_control) are mixed in; false for every other profile (no extra PRNG draws)
     pub control: bool,
+    /// many cloned request handles racing for few slots; queued requests are reset / dropped while queued
+    pub queue: bool,
+    /// large bodies ending the stream, tiny write budgets, frequent SETTINGS window changes while writes are blocked
+    pub backpressure: bool,
 }
 
 pub fn profile(name: &str) -> Profile {
-    let base = Profile { name: "mixed", w_conn_poll: 30, w_peer: 30, w_app: 40, w_io: 3, w_chaos: 0, w_end: 1, max_data: 3000, tiny_windows: false, small_limits: false, recv_heavy: false, control: false };
+    let base = Profile { name: "mixed", w_conn_poll: 30, w_peer: 30, w_app: 40, w_io: 3, w_chaos: 0, w_end: 1, max_data: 3000, tiny_windows: false, small_limits: false, recv_heavy: false, control: false, queue: false, backpressure: false };
     match name {
         "flow" => Profile { name: "flow", tiny_windows: true, max_data: 400, w_io: 6, ..base },
         "limits" => Profile { name: "limits", small_limits: true, max_data: 200, ..base },
@@ -68,6 +72,8 @@ pub fn profile(name: &str) -> Profile {
         "chaos" => Profile { name: "chaos", w_chaos: 12, ..base },
         "reset" => Profile { name: "reset", max_data: 500, ..base },
         "shutdown" => Profile { name: "shutdown", w_end: 6, ..base },
+        "bp" => Profile { name: "bp", backpressure: true, max_data: 3000, w_io: 14, w_peer: 32, w_app: 36, w_conn_poll: 30, ..base },
+        "queue" => Profile { name: "queue", small_limits: true, queue: true, max_data: 100, w_app: 55, w_peer: 25, w_conn_poll: 20, w_io: 2, ..base },
         "control" => Profile { name: "control", w_end: 2, w_io: 5, control: true, ..base },
         _ => base,
     }
@@ -91,7 +97,11 @@ pub fn gen_config(rng: &mut Rng, client: bool, p: &Profile) -> Config {
         c.initial_window_size = Some(*rng.pick(&[1000u32, 20000, 65535, 200000]));
         c.peer_settings.push((4, *rng.pick(&[1000u32, 20000, 65535, 200000])));
     }
-    if p.small_limits || rng.chance(1, 4) {
+    if p.queue {
+        c.peer_settings.push((3, *rng.pick(&[1u32, 1, 2, 3])));
+        if rng.chance(1, 3) { c.initial_max_send_streams = Some(*rng.pick(&[0usize, 1, 2])); }
+        if rng.chance(1, 2) { c.max_concurrent_streams = Some(*rng.pick(&[1u32, 2])); }
+    } else if p.small_limits || rng.chance(1, 4) {
         c.max_concurrent_streams = Some(*rng.pick(&[0u32, 1, 2, 3, 5]));
         if rng.chance(2, 3) {
             c.peer_settings.push((3, *rng.pick(&[0u32, 1, 2, 3, 5])));
@@ -274,6 +284,10 @@ pub fn gen_peer(rng: &mut Rng, d: &Driver, pv: &mut PeerView, p: &Profile) -> Op
     }
     let live: Vec<usize> = pv.streams.iter().enumerate().filter(|(_, s)| !s.reset).map(|(i, _)| i).collect();
     let mut choice = rng.below(100);
+    if p.backpressure && rng.chance(1, 5) {
+        let iw = *rng.pick(&[0u32, 1000, 10000, 30000, 65535, 100000]);
+        return Some(peer_bytes(wire::settings(&[(4, iw)]), json!({"t":"SETTINGS","params":[[4, iw]]})));
+    }
     if p.recv_heavy && rng.chance(1, 2) { choice = 33 + rng.below(27); }
     match choice {
         0..=17 => {
@@ -439,6 +453,28 @@ pub fn gen_app(rng: &mut Rng, d: &Driver, p: &Profile) -> Option<Value> {
     let client = d.cfg.role_client;
     let nh = d.handles.len();
     let k = rng.below(100);
+    if client && p.queue {
+        let sr_n = if let Endpoint::Client { sr, .. } = &d.ep { sr.iter().filter(|x| x.is_some()).count() } else { 1 };
+        let sr_len = if let Endpoint::Client { sr, .. } = &d.ep { sr.len() } else { 1 };
+        let q = rng.below(100);
+        if sr_n < 4 && q < 12 { return Some(json!({"op":"clone_sr"})); }
+        if q < 40 {
+            let sr = rng.below(sr_len as u64);
+            let eos = rng.chance(1, 2);
+            return Some(json!({"op":"send_request","sr":sr,"eos":eos,"method": if eos {"GET"} else {"POST"}}));
+        }
+        if q < 62 && nh > 0 {
+            // act on one of the most recent requests: it is probably still queued behind the limit
+            let h = nh - 1 - (rng.below(nh.min(3) as u64) as usize);
+            let hd = &d.handles[h];
+            return Some(match rng.below(4) {
+                0 if hd.send.is_some() => json!({"op":"send_reset","h":h,"code": *rng.pick(&[8u32, 2, 0])}),
+                1 => json!({"op":"drop_response","h":h}),
+                2 => json!({"op":"drop_send","h":h}),
+                _ => json!({"op":"poll_response","h":h}),
+            });
+        }
+    }
     if client {
         if k < 14 || nh == 0 {
             let sr_n = if let Endpoint::Client { sr, .. } = &d.ep { sr.len() } else { 1 };
@@ -460,6 +496,13 @@ pub fn gen_app(rng: &mut Rng, d: &Driver, p: &Profile) -> Option<Value> {
         return if d.conn_woken() { Some(json!({"op":"poll_accept"})) } else { None };
     }
     if nh == 0 { return None; }
+    if p.backpressure && rng.chance(1, 3) {
+        let cands: Vec<usize> = (0..nh).filter(|&i| d.handles[i].send.is_some() && !d.handles[i].send_done).collect();
+        if !cands.is_empty() {
+            let h = *rng.pick(&cands);
+            return Some(json!({"op":"send_data","h":h,"len": rng.range(9000, 50000),"eos": rng.chance(2, 3)}));
+        }
+    }
     if p.recv_heavy && rng.chance(1, 2) {
         let cands: Vec<usize> = (0..nh).filter(|&i| d.handles[i].recv.is_some() && !d.handles[i].recv_done).collect();
         if !cands.is_empty() {
@@ -653,6 +696,14 @@ pub fn gen_control(rng: &mut Rng, d: &Driver, pv: &mut PeerView) -> Option<Value
     }
 }
 
+pub fn gen_io_bp(rng: &mut Rng) -> Value {
+    match rng.below(10) {
+        0..=5 => json!({"op":"write_mode","mode":"budget","n": *rng.pick(&[0u64, 30, 100, 1000, 5000, 20000])}),
+        6..=8 => json!({"op":"write_mode","mode":"all"}),
+        _ => json!({"op":"write_chunk","n": *rng.pick(&[0u64, 1, 100, 4000])}),
+    }
+}
+
 pub fn gen_io(rng: &mut Rng) -> Value {
     match rng.below(10) {
         0..=2 => json!({"op":"write_mode","mode":"budget","n": *rng.pick(&[0u64, 1, 5, 9, 10, 50, 500])}),
@@ -708,7 +759,7 @@ pub fn run_random(d: &mut Driver, rng: &mut Rng, p: &Profile, steps: usize) {
                 } else {
                     r -= p.w_app;
                     if r < p.w_io {
-                        Some(gen_io(rng))
+                        Some(if p.backpressure { gen_io_bp(rng) } else { gen_io(rng) })
                     } else {
                         r -= p.w_io;
                         if r < p.w_chaos {
